@@ -106,6 +106,12 @@ func (c *Cluster) UpsertRegionHeartbeat(meta manifest.RegionMeta) error {
 	if meta.ID == 0 {
 		return ErrInvalidRegionID
 	}
+	// An empty or inverted range [start, end) contains no key, passes the
+	// overlap check, and would shadow the region that owns those keys in the
+	// sorted range index used by GetRegionByKey.
+	if len(meta.EndKey) > 0 && bytes.Compare(meta.StartKey, meta.EndKey) >= 0 {
+		return fmt.Errorf("%w: region=%d start key is not before end key", ErrInvalidRegionRange, meta.ID)
+	}
 
 	c.mu.Lock()
 	defer c.mu.Unlock()
